@@ -1,6 +1,7 @@
 SPECIFICATION Spec
 CONSTANT MaxV = 5
 CONSTANT Limits = {0, 2, 3, 4}
+CONSTANT MaxCovers = 1
 CONSTANT SmallFirst = FALSE
 INVARIANT C10_LabelIsWholeClique
 INVARIANT C10_EveryEdgeOneLabel
